@@ -73,6 +73,17 @@ def build_lib(variant="asan"):
     return d
 
 
+def build_cli(variant="asan"):
+    """Build the gmssl command line tool (tools/*.c) for `variant` from REPO's working tree. Returns the path of the executable."""
+    variant = os.environ.get("VERIF_FORCE_VARIANT") or variant
+    d = build_lib(variant)
+    with _Lock(os.path.join(BUILD, "lock_" + variant)):
+        r = sh(["ninja", "-C", d, "gmssl-bin"])
+        if r.returncode != 0:
+            raise RuntimeError("command line tool build failed (%s):\n%s\n%s" % (variant, r.stdout[-6000:], r.stderr[-3000:]))
+    return os.path.join(d, "bin", "gmssl")
+
+
 def lib_defines(variant):
     d = os.path.join(BUILD, "lib_" + variant)
     cc = json.load(open(os.path.join(d, "compile_commands.json")))
